@@ -69,7 +69,7 @@ func (rr *NSEC3) Cover(name string) bool {
 		}
 		return nameHash < nextHash // if nameHash is before beginning of zone it is covered
 	}
-	if nameHash < ownerHash { // nameHash is before ownerHash, not covered
+	if nameHash <= ownerHash { // nameHash is before or at ownerHash, not covered (a match is not a cover)
 		return false
 	}
 	return nameHash < nextHash // if nameHash is before nextHash is it covered (between ownerHash and nextHash)
